@@ -1,0 +1,11 @@
+//go:build verif
+
+// Contracts for the 26-routing keeper (comment-only; read by /verif's tibcvc).
+package keeper
+
+//@ wire (Keeper).storeKey = store tibc
+
+//@ spec routeAllowed(S: store, src: str, dst: str, port: str): bool
+
+//@ extern (Keeper).Authenticate(ctx, sourceChain, destinationChain, port) (result)
+//@   ensures def: result <==> routeAllowed(tibc, sourceChain, destinationChain, port)
